@@ -2,7 +2,7 @@
 import copy
 import random
 
-from harness import apalache, core, tlc, tracecheck, gen_storages as GS
+from harness import apalache, tlaps, core, tlc, tracecheck, gen_storages as GS
 from harness.proxies import TapeMismatch
 
 PID = "C07"
@@ -66,6 +66,10 @@ def run(tier, seed):
                            negative_cinit="CInitReservoirBug")
     else:
         apalache.inductive(ctx, "MC_StoreInd", "CInitReservoir", "IndInit", "IndInv", "C07", "reservoirs, every draw outcome, Cap in 1..6")
+    # ... and for ANY capacity as well: machine-checked TLAPS proofs of the same invariants (StoreIndProof.tla; the TLC runs
+    # above show that its actions are StoreInd's step and hence Storages!Successors)
+    tlaps.prove(ctx, "StoreIndProof", "sliding storages and reservoirs: Init => Inv, Inv /\\ [Next]_vars => Inv', Inv => Observed /\\ "
+                "AtMostOnce /\\ Count /\\ Aligned (/\\ LastCapInOrder), for every capacity >= 1 and every stream length")
     # direction B: seeded runs of all five classes, TLC infers the reservoir outcome of every step
     traces = []
     nruns = 60 if quick else 600
